@@ -115,3 +115,42 @@ func VerifNewConnKit(impl VerifControlConn, sid [64]byte) *VerifConnKit {
 		sendSID:    GetSID(sid, false),
 	}}
 }
+
+// VerifWithHashMailClient makes a Client use the given (in-memory) hashmail
+// client instead of dialing a mailbox server.
+func VerifWithHashMailClient(c hashmailrpc.HashMailClient) ClientOption {
+	return func(client *Client) {
+		client.grpcClient = c
+	}
+}
+
+// VerifNewServer is NewServer without the grpc.Dial: the listener talks to
+// the given (in-memory) hashmail client.
+func VerifNewServer(serverHost string, connData *ConnData,
+	onNewStatus func(status ServerStatus),
+	client hashmailrpc.HashMailClient) (*Server, error) {
+
+	sid, err := connData.SID()
+	if err != nil {
+		return nil, err
+	}
+
+	s := &Server{
+		serverHost:  serverHost,
+		client:      client,
+		connData:    connData,
+		sid:         sid,
+		onNewStatus: onNewStatus,
+		log:         log.WithPrefix("(server)"),
+		quit:        make(chan struct{}),
+	}
+
+	s.ctx, s.cancel = context.WithCancel(context.Background())
+
+	return s, nil
+}
+
+// VerifSIDs returns the receive and send stream ids of a connection.
+func (k *connKit) VerifSIDs() ([64]byte, [64]byte) {
+	return k.receiveSID, k.sendSID
+}
